@@ -112,7 +112,7 @@ PROPS['C03'] = {
              {'name': 'cp932', 'flavour': 'asan-cp932', 'driver': 'drv_c03', 'env': {'PV_SCALE': '15'}, 'shards': 4},
              {'name': 'clang', 'flavour': 'clang-asan', 'driver': 'drv_c03', 'env': {'PV_SCALE': '20'}, 'shards': 6},
              {'name': 'native', 'flavour': 'asan-native', 'driver': 'drv_c03', 'env': {'PV_SCALE': '20'}, 'shards': 4}],
-    'require': {'concurrent.phrases_equal_specification': 30000, 'encode.calls': 400000, 'bits.seeds': 13531, 'purity.histories_agree': 1000, 'reserved_bit.decodes': 100, 'oracle.vectors_reproduced': 3000, 'lengths.encoded': 1500, 'pyvec.phrases_equal_to_python_spec': 3000, 'lengths.ko.decile8': 3, 'lengths.ko.decile6': 5, 'lengths.jp.decile4': 1},
+    'require': {'concurrent.phrases_equal_specification': 30000, 'encode.calls': 400000, 'bits.seeds': 13531, 'purity.histories_agree': 1000, 'reserved_bit.decodes': 100, 'oracle.vectors_reproduced': 3000, 'lengths.encoded': 1500, 'pyvec.phrases_equal_to_python_spec': 3000, 'lengths.ko.decile8': 3, 'lengths.ko.decile6': 5, 'lengths.jp.decile2': 5},
 }
 
 _C16_FL = ['opt-O0', 'opt-O1', 'opt-O2', 'opt-O3', 'opt-Os', 'clang-O2']
